@@ -278,6 +278,7 @@ class ExplorerScriptSsbCompiler:
         self.routine_ops = OpsLabelJumpToRemover(label_finalizer.routines, label_finalizer.label_offsets).routines
         self.routine_infos = compiler_visitor.routine_infos
         self.named_coroutines = compiler_visitor.named_coroutines
+        compiler_visitor.source_map_builder.keep_macro_call_positions([[op.offset for op in r] for r in self.routine_ops])
         self.source_map = compiler_visitor.source_map_builder.build()
 
         # Done!
